@@ -1,2 +1,94 @@
-(* Property C13 (placeholder while the lemma files are being written). *)
-From Core Require Import C12_Ops C13_Model.
+(* Property C13: GMRES returns the residual-minimising iterate of its Krylov space.
+   Only statements closed by [exact]; the lemmas live in C13_Proofs.v, C13_Summary.v, C13_Witness.v.  The model
+   (C13_Model.v) is a transcription of cola/linalg/decompositions/arnoldi.py (arnoldi_fact) and
+   cola/linalg/inverse/gmres.py (gmres_fwd) over an abstract scalar/vector interface; the same term is executed on
+   PrimFloat by the correspondence check. *)
+From Coq Require Import List Bool Arith QArith Qcanon.
+From Core Require Import C12_Ops C12_Witness C13_Model C13_Proofs C13_Reduction C13_Summary C13_Witness.
+Import ListNotations.
+Local Close Scope Qc_scope. Local Close Scope Q_scope.
+
+(* never more than min(m, n) Arnoldi steps, i.e. products with A besides the one for the initial residual; for every
+   scalar/vector instance (floats included), operator, solve oracle, flag value, tolerance and batch of columns *)
+Theorem C13_products : forall (T V : Type) (o : ops T) (vo : vops T V) (A : V -> V) solve flag tol m n (bs x0s : list V),
+  gsteps (gmres_fwd o vo A solve flag tol m n bs x0s) <= Nat.min m n.
+Proof. exact @gmres_products. Qed.
+Print Assumptions C13_products.
+
+(* modified Gram-Schmidt as coded (inner_loop): the result is orthogonal to an orthonormal basis *)
+Theorem C13_mgs_orthogonal : forall (T V : Type) (o : ops T) (vo : vops T V), arn_laws o vo ->
+  forall qs w w' hs hs', mgs vo qs w hs = (w', hs') -> orthonormal o vo qs -> forall u, In u qs -> vdot vo u w' = o0 o.
+Proof. exact @mgs_orth_b. Qed.
+Print Assumptions C13_mgs_orthogonal.
+
+(* one step of arnoldi_fact's body without clipping: the basis stays orthonormal and the new column of H satisfies the
+   Arnoldi relation  A q_idx = sum_{i <= idx+1} H[i, idx] q_i  (tested against every vector u) *)
+Theorem C13_arnoldi_step : forall (T V : Type) (o : ops T) (vo : vops T V), arn_laws o vo ->
+  forall (A : V -> V) tol (c : acol (T:=T) (V:=V)),
+  orthonormal o vo (aqs c) ->
+  let c' := arnoldi_step o vo A tol c in
+  forall w hs, mgs vo (aqs c) (A (alast c)) [] = (w, hs) ->
+  clip_min o (vnrm o vo w) (odiv o tol (oadd o (o1 o) (o1 o))) = vnrm o vo w -> vnrm o vo w <> o0 o ->
+  orthonormal o vo (aqs c') /\
+  exists hcol, ahs c' = ahs c ++ [hcol] /\ length hcol = S (length (aqs c)) /\ aqs c' = aqs c ++ [alast c'] /\
+    forall u, vdot vo u (A (alast c)) = lsum o (zipw (fun h q => omul o h (vdot vo u q)) hcol (aqs c')).
+Proof. exact @arnoldi_step_b. Qed.
+Print Assumptions C13_arnoldi_step.
+
+(* normal equations characterise the minimiser: a residual r0 - sum_j y_j w_j orthogonal to every w_j (= A q_j) has the
+   smallest squared norm among all coefficient vectors ([Pos] = "is a non-negative real") *)
+Theorem C13_gmres_minimal : forall (T V : Type) (o : ops T) (vo : vops T V), arn_laws o vo ->
+  forall (Pos : T -> Prop), (forall v, Pos (vdot vo v v)) ->
+  forall ws y r0, (forall w, In w ws -> vdot vo w (lsq_res vo ws y r0) = o0 o) ->
+  forall y', Pos (osub o (vdot vo (lsq_res vo ws y' r0) (lsq_res vo ws y' r0)) (vdot vo (lsq_res vo ws y r0) (lsq_res vo ws y r0))).
+Proof. exact @gmres_minimal_b. Qed.
+Print Assumptions C13_gmres_minimal.
+
+Theorem C13_residual_le_initial : forall (T V : Type) (o : ops T) (vo : vops T V), arn_laws o vo ->
+  forall (Pos : T -> Prop), (forall v, Pos (vdot vo v v)) ->
+  forall ws y r0, (forall w, In w ws -> vdot vo w (lsq_res vo ws y r0) = o0 o) ->
+  Pos (osub o (vdot vo r0 r0) (vdot vo (lsq_res vo ws y r0) (lsq_res vo ws y r0))).
+Proof. exact @gmres_residual_le_r0_b. Qed.
+Print Assumptions C13_residual_le_initial.
+
+(* the reduction: for an orthonormal family q_0..q_m with the Arnoldi relation and r0 = beta q_0, the residual
+   rho = r0 - sum_j y_j A q_j satisfies ||rho||^2 = ||beta e1 - H~ y||^2 ([coord] = entries of beta e1 - H~ y) *)
+Theorem C13_reduction : forall (T V : Type) (o : ops T) (vo : vops T V), arn_laws o vo ->
+  forall (A : V -> V) (q : nat -> V) (H : nat -> nat -> T) (m : nat) (beta : T) (r0 rho : V) (y : nat -> T),
+  (forall i j, i <= m -> j <= m -> vdot vo (q i) (q j) = delta o i j) ->
+  (forall j, j < m -> forall u, vdot vo u (A (q j)) = sum o (S m) (fun i => omul o (H i j) (vdot vo u (q i)))) ->
+  (forall u, vdot vo u r0 = omul o beta (vdot vo u (q 0))) ->
+  (forall u, vdot vo u rho = osub o (vdot vo u r0) (sum o m (fun j => omul o (y j) (vdot vo u (A (q j)))))) ->
+  vdot vo rho rho = sum o (S m) (fun k => omul o (coord o H m beta y k) (oconj o (coord o H m beta y k))).
+Proof. exact @gmres_reduction_b. Qed.
+Print Assumptions C13_reduction.
+
+(* a solution y of the small normal equations (H~^H H~) y = H~^H (beta e1) - what gmres_fwd asks of xnp.solve once the
+   last Hessenberg row is kept - gives the residual of minimal norm over x0 + span{q_0..q_(m-1)} = x0 + K_m *)
+Theorem C13_normal_equations_optimal : forall (T V : Type) (o : ops T) (vo : vops T V), arn_laws o vo ->
+  forall (A : V -> V) (q : nat -> V) (H : nat -> nat -> T) (m : nat) (beta : T) (r0 : V) (y : nat -> T) (Pos : T -> Prop),
+  (forall v, Pos (vdot vo v v)) ->
+  (forall i j, i <= m -> j <= m -> vdot vo (q i) (q j) = delta o i j) ->
+  (forall j, j < m -> forall u, vdot vo u (A (q j)) = sum o (S m) (fun i => omul o (H i j) (vdot vo u (q i)))) ->
+  (forall u, vdot vo u r0 = omul o beta (vdot vo u (q 0))) ->
+  (forall i, i < m -> sum o m (fun j => omul o (Gram o H m i j) (y j)) = omul o (oconj o (H 0 i)) beta) ->
+  forall y' : list T,
+  Pos (osub o (vdot vo (rho_of vo A q m r0 y') (rho_of vo A q m r0 y'))
+              (vdot vo (rho_of vo A q m r0 (map y (seq 0 m))) (rho_of vo A q m r0 (map y (seq 0 m))))).
+Proof. exact @gmres_optimal_b. Qed.
+Print Assumptions C13_normal_equations_optimal.
+
+(* the pinned tree (flag gmres_square_H = true) violates the property: A = [[1,2],[3,4]], b = (1,0), x0 = 0, m = 1 returns
+   x = (1,0) whose squared residual 9 exceeds both that of 0.1*b in x0 + K_1 (9/10) and that of the initial guess (1) *)
+Theorem C13_refuted_square_H :
+  map this (gsolq true) = [1 # 1; 0 # 1]%Q /\ gsteps (grunq true) = 1 /\
+  (exists t, Qc_ltb (gres2 (gkrylov1 t)) (gres2 (gsolq true)) = true) /\
+  Qc_ltb (gres2 gx0) (gres2 (gsolq true)) = true.
+Proof. exact gmres_refuted_square_H. Qed.
+Print Assumptions C13_refuted_square_H.
+
+(* with the flag cleared the model returns the least-squares optimum on the same witness *)
+Theorem C13_witness_fixed_optimal :
+  map this (gsolq false) = map this (gkrylov1 (qq 1 10)) /\ this (gres2 (gsolq false)) = (9 # 10)%Q.
+Proof. exact gmres_witness_fixed_optimal. Qed.
+Print Assumptions C13_witness_fixed_optimal.
